@@ -200,6 +200,74 @@ def r_circular_import(m, rnd):
             yield 'direct', apply
 
 
+@rule('circular_import_longer')
+def r_circular_import_long(m, rnd):
+    """Import cycles are refused whatever their length (a -> b -> c -> a)."""
+    by = {ns.name: ns for ns in m.namespaces}
+    for ns in m.namespaces:
+        for mid in ns.imports:
+            for far in by[mid].imports:
+                if far != ns.name and ns.name not in by[far].imports:
+                    def apply(m2, far=far, back=ns.name):
+                        m2.ns(far).imports.append(back)
+                    yield 'length3', apply
+
+
+@rule('builtin_annotation_bad_argument')
+def r_builtin_ann_args(m, rnd):
+    """Omitted takes a caller class (an identifier-like string), the redactors an
+    optional regular expression."""
+    for path, d in defs(m, ('annotation',)):
+        if d.atype == 'Omitted':
+            for label, bad in (('number', [5]), ('not_identifier', ['internal-team']), ('empty', [''])):
+                def apply(m2, path=path, bad=bad):
+                    getd(m2, path).args = list(bad)
+                yield 'omitted_' + label, apply
+        elif d.atype in ('RedactedBlot', 'RedactedHash'):
+            for label, bad in (('boolean', [True]), ('bad_regex', ['(unbalanced'])):
+                def apply(m2, path=path, bad=bad):
+                    getd(m2, path).args = list(bad)
+                yield 'redactor_' + label, apply
+
+
+@rule('default_on_union_member')
+def r_default_on_tag(m, rnd):
+    for fpath, d, f in fields_of(m, ('union',)):
+        if f.type is not None and f.type.kind == 'prim' and f.type.name == 'String' and not f.type.nullable:
+            def apply(m2, fpath=fpath):
+                getf(m2, fpath).default = ('lit', 'x')
+            yield 'string_tag', apply
+
+
+@rule('field_typed_by_alias_of_void')
+def r_alias_of_void_member(m, rnd):
+    for fpath, d, f in fields_of(m):
+        if f.type is None or f.default is not None:
+            continue
+
+        def apply(m2, fpath=fpath, d=d):
+            m2.ns(d.ns).defs.append(AliasDef(name='VoidAlias999', ns=d.ns, doc=None, type=prim('Void'), anns=[]))
+            f2 = getf(m2, fpath)
+            f2.type = ref(d.ns, 'VoidAlias999')
+            f2.anns = []
+        yield d.kind, apply
+
+
+@rule('default_on_alias_of_nullable')
+def r_default_alias_nullable(m, rnd):
+    for fpath, d, f in fields_of(m, ('struct',)):
+        if f.type.kind == 'prim' and f.type.name == 'String' and not f.type.args and f.default is None \
+                and not f.type.nullable:
+            def apply(m2, fpath=fpath, d=d):
+                m2.ns(d.ns).defs.append(AliasDef(name='MaybeText999', ns=d.ns, doc=None,
+                                                 type=prim('String', nullable=True), anns=[]))
+                f2 = getf(m2, fpath)
+                f2.type = ref(d.ns, 'MaybeText999')
+                f2.default = ('lit', 'x')
+                f2.anns = []
+            yield 'string_field', apply
+
+
 @rule('undefined_annotation')
 def r_undefined_annotation(m, rnd):
     for fpath, d, f in fields_of(m):
@@ -916,6 +984,13 @@ _type_text_rule('min_greater_than_max',
                 lambda t: 'String(min_length=5, max_length=2)' if t.name == 'String'
                 else 'List(String, min_items=3, max_items=1)',
                 lambda t: t.name == 'String' or t.kind == 'list')
+_type_text_rule('numeric_min_greater_than_max',
+                lambda t: t.name + ('(min_value=5, max_value=2)' if t.name in PRIM_INTS
+                                    else '(min_value=5.0, max_value=2.0)'),
+                lambda t: t.name in PRIM_INTS or t.name in PRIM_FLOATS)
+_type_text_rule('boolean_as_numeric_bound',
+                lambda t: t.name + '(min_value=true)' if t.name != 'String' else 'String(min_length=true)',
+                lambda t: t.name in PRIM_INTS or t.name in PRIM_FLOATS)
 _type_text_rule('negative_length', lambda t: 'String(min_length=-1)' if t.name == 'String'
                 else 'List(String, min_items=-1)', lambda t: t.name == 'String' or t.kind == 'list')
 _type_text_rule('zero_max', lambda t: 'String(max_length=0)' if t.name == 'String'
@@ -1051,7 +1126,7 @@ def r_ex_unknown_field(m, rnd):
 def r_ex_missing(m, rnd):
     for epath, d, ex in examples_of(m):
         if d.kind == 'struct' and not d.subtypes:
-            req = [f for f in m.struct_all_fields(d) if f.default is None and not f.type.nullable
+            req = [f for f in m.struct_all_fields(d) if f.default is None and not m.is_nullable(f.type)
                    and f.name in ex.values]
             for f in req[:2]:
                 if len(ex.values) < 2:
